@@ -137,13 +137,14 @@ def first_diff(a, b):
     return None
 
 
-def ddmin(body, pred, max_tests=400):
+def ddmin(body, pred, max_tests=400, deadline=None):
     """Delta debugging on the lines of a case body: smallest sub-list (found greedily) for which
     `pred(lines)` is still true."""
     tests = 0
     n = 2
     cur = list(body)
-    while len(cur) >= 2 and tests < max_tests:
+    import time as _time
+    while len(cur) >= 2 and tests < max_tests and (deadline is None or _time.time() < deadline):
         size = max(1, len(cur) // n)
         reduced = False
         for i in range(0, len(cur), size):
@@ -152,7 +153,7 @@ def ddmin(body, pred, max_tests=400):
             if cand and pred(cand):
                 cur, n, reduced = cand, max(n - 1, 2), True
                 break
-            if tests >= max_tests:
+            if tests >= max_tests or (deadline is not None and _time.time() >= deadline):
                 break
         if not reduced:
             if size == 1:
